@@ -8,7 +8,7 @@ VERIF = os.path.dirname(os.path.dirname(os.path.abspath(__file__)))
 
 
 @contextlib.contextmanager
-def site(files: dict, meta: str, cargs=None, body="Project text\n", name="proj.md", sandbox=None, proj="proj"):
+def site(files: dict, meta: str, cargs=None, body="Project text\n", name="proj.md", sandbox=None, proj="proj", hashseed="0"):
     """files: {path relative to the project directory: text}; meta: metadata lines of the project file.  Yields (project dir, status)."""
     os.makedirs(realrun.TMPROOT, exist_ok=True)
     sb = sandbox or tempfile.mkdtemp(dir=realrun.TMPROOT)
@@ -24,7 +24,7 @@ def site(files: dict, meta: str, cargs=None, body="Project text\n", name="proj.m
         os.makedirs(os.path.dirname(pf), exist_ok=True)
         with open(pf, "w") as f:
             f.write("---\nproject: demo\npreprocess: false\n" + meta + "---\n\n" + body)
-        env = dict(os.environ, FORD_DEBUGGING="1", PYTHONHASHSEED="0")
+        env = dict(os.environ, FORD_DEBUGGING="1", PYTHONHASHSEED=str(hashseed))
         r = subprocess.run([sys.executable, "-m", "bounded.fordrun", sb, pf] + ([json.dumps(cargs)] if cargs else []), cwd=VERIF, capture_output=True,
                            text=True, timeout=900, env=env)
         line = [l for l in r.stdout.splitlines() if l.startswith("##FORDRUN##")]
